@@ -21,6 +21,17 @@ import (
 // fullAll adds the two remaining result-transforming combinators (SuppressError, Single) to the full alphabet.
 var fullAll = gram.Full.With("full+suppress+single", gram.SupErr, gram.Single)
 
+// fullTrimEnd: the full alphabet plus Left/RightTrim (spaces; spaces and newlines) and parser.End() as a leaf, inputs
+// over {a, b, space}: every node type the library hands to ast.SetReaderPos occurs under a trim. The reference does
+// not model trims, so these grammars are explored for the unconditional clauses (node xor error, no panic, root span).
+var fullTrimEnd = func() gram.Alphabet {
+	a := gram.Full.With("full+trim(1,2)+end", gram.LTrim, gram.RTrim)
+	a.TrimModes = []int{1, 2}
+	a.End = true
+	return a
+}()
+var abSp = []byte{'a', 'b', ' '}
+
 func c04Specs(tier string) []spaceSpec {
 	if tier == "thorough" {
 		return []spaceSpec{
@@ -28,6 +39,7 @@ func c04Specs(tier string) []spaceSpec {
 			{sp: &gram.Space{Name: "core-1nt", Alpha: gram.Core, NNT: 1, Min: 6, Max: 6}, maxLen: 4, alpha: ab},
 			{sp: &gram.Space{Name: "full-2nt", Alpha: gram.Full, NNT: 2, Min: 2, Max: 5}, maxLen: 3, alpha: ab},
 			{sp: &gram.Space{Name: "all-combinators-1nt", Alpha: fullAll, NNT: 1, Min: 2, Max: 5}, maxLen: 3, alpha: ab},
+			{sp: &gram.Space{Name: "full+trims+end-1nt", Alpha: fullTrimEnd, NNT: 1, Min: 2, Max: 5}, maxLen: 3, alpha: abSp},
 			{sp: &gram.Space{Name: "core1-2nt-mutual", Alpha: gram.Core1, NNT: 2, Min: 2, Max: 8}, maxLen: 3, alpha: []byte{'a'}, mutualOnly: true},
 			templateSpec("ab", 3, 1, 3),
 		}
@@ -37,6 +49,7 @@ func c04Specs(tier string) []spaceSpec {
 		{sp: &gram.Space{Name: "core-1nt", Alpha: gram.Core, NNT: 1, Min: 5, Max: 5}, maxLen: 4, alpha: ab},
 		{sp: &gram.Space{Name: "full-2nt", Alpha: gram.Full, NNT: 2, Min: 2, Max: 4}, maxLen: 3, alpha: ab},
 		{sp: &gram.Space{Name: "all-combinators-1nt", Alpha: fullAll, NNT: 1, Min: 2, Max: 4}, maxLen: 3, alpha: ab},
+		{sp: &gram.Space{Name: "full+trims+end-1nt", Alpha: fullTrimEnd, NNT: 1, Min: 2, Max: 4}, maxLen: 3, alpha: abSp},
 		{sp: &gram.Space{Name: "core1-2nt-mutual", Alpha: gram.Core1, NNT: 2, Min: 2, Max: 7}, maxLen: 2, alpha: []byte{'a'}, mutualOnly: true},
 		templateSpec("ab", 3, 1, 2),
 	}
@@ -81,7 +94,12 @@ func c04Grammar(res *explore.Result, g *gram.Grammar, inputs [][]byte, verbose b
 	}
 	res.Add("grammars_explored", 1)
 	admitted := an.Admitted()
+	trims := false
 	for _, e := range g.Nodes() {
+		if e.K == gram.LTrim || e.K == gram.RTrim {
+			admitted = false // the reference does not model whitespace trimming
+			trims = true
+		}
 		if e.K == gram.Single {
 			// combinator.Single drops its operand's result whenever the operand also returned an error (Optional
 			// does that), a behaviour its own unit test pins; the reference does not model returned errors, so
@@ -106,13 +124,15 @@ func c04Grammar(res *explore.Result, g *gram.Grammar, inputs [][]byte, verbose b
 				root = combinator.Sentence(&b.NT[0])
 			}
 			explosiveFrom := -1
+			var history []string // inputs parsed before with this grammar object (in this variant)
 			for _, w := range inputs {
 				if explosiveFrom >= 0 && len(w) >= explosiveFrom {
 					res.Add("cases_skipped_after_meter_tripped", 1)
 					continue
 				}
 				n := len(w)
-				c := Case{Placement: impl.Placement, Prior: b.MemoBefore, Grammar: gs, Input: string(w), Note: v.String()}
+				c := Case{Placement: impl.Placement, Prior: b.MemoBefore, Grammar: gs, Input: string(w), Note: v.String(), History: append([]string{}, history...)}
+				history = append(history, string(w))
 				where := fmt.Sprintf("%s [%s]", c, v)
 				res.Add("states", 1)
 
@@ -195,7 +215,9 @@ func c04Grammar(res *explore.Result, g *gram.Grammar, inputs [][]byte, verbose b
 					}
 				}
 				if ok && sentence {
-					if int(node.Pos()) != impl.Base || int(node.ReaderPos()) != impl.Base+n {
+					// under a trim the first token keeps its own start (C10) and an empty match is a bare position that moves
+					// with its end, so with trims only the END of the tree is held to the statement
+					if (!trims && int(node.Pos()) != impl.Base) || int(node.ReaderPos()) != impl.Base+n {
 						viol("root-span", fmt.Sprintf("Sentence succeeded but the root spans <%d,%d>, input is <0,%d>", int(node.Pos())-impl.Base, int(node.ReaderPos())-impl.Base, n))
 					}
 				}
@@ -231,7 +253,11 @@ func c04Replay(raw json.RawMessage) *explore.Result {
 	}
 	res.Notes = append(res.Notes, "case: "+c.String())
 	g.Named = false
-	c04Grammar(res, g, [][]byte{[]byte(c.Input)}, true)
+	var inputs [][]byte
+	for _, h := range c.History {
+		inputs = append(inputs, []byte(h))
+	}
+	c04Grammar(res, g, append(inputs, []byte(c.Input)), true)
 	return res
 }
 
